@@ -223,9 +223,13 @@ def run(ctx, chk):
                         "payload is not buf[..read_at(file_of(request.file_id), &mut buf, request.file_offset)]: %s" % why,
                         "buf[..n], n = read_at(files[request.file_id], buf, request.file_offset)", t.get("sp"))
     # ---------------- (d) refusals
-    okors = [(bb, t) for bb, t in b.calls() if callee(t) == "core::option::Option::<T>::ok_or"]
-    chk.require(len(okors) >= 5, "C11-d/refusal-points", "WriteFile", "expected five ok_or refusal points, found %d" % len(okors),
-                "%d ok_or(..)? steps" % len(okors), b.sp())
+    # sanity floor, not a count of a spelling: the places where a missing request field becomes an error (that each
+    # value used in the answer is reached only past its refusal is what the C11-b/c wiring rules decide)
+    okors = [(bb, t) for bb, t in b.calls() if callee(t) in ("core::option::Option::<T>::ok_or", "core::option::Option::<T>::ok_or_else")]
+    n_ref = len(okors) + sum(1 for i in b.reachable(0) for st in b.blocks[i]["stmts"]
+                             if st.get("lowered") and st["s"] == "assign" and st["rv"]["r"] == "agg" and st["rv"].get("vname") == "Err")
+    chk.require(n_ref >= 3, "C11-d/refusal-points", "WriteFile", "expected at least three refusal points (None -> Err), found %d" % n_ref,
+                "%d refusal steps" % n_ref, b.sp())
     results, _ = seqcheck.run_all(ctx)
     res = results.get("zvt::feig::sequences::WriteFile")
     if chk.require(res is not None and not res.get("skipped"), "C11-d/monitor", "WriteFile", "sequence not analysed by the protocol monitor", "",
